@@ -3,18 +3,20 @@ from .driver import Case
 
 HEADER = "From Coq Require Import List ZArith. Import ListNotations. From RM Require Import Exec. Open Scope Z_scope."
 
-def mk_case(kind, chan, L, tau, tclose, items):
-    line = "exec kind=%s chan=%s L=%d tau=%d tclose=%d ; %s ; S" % (kind, chan, L, tau, tclose, " ".join("it:%d:%d" % (d, int(f)) for d, f in items))
+ERRDELAY = 3      # ms the (awaited) error callback of the futures+fallible executor takes in the harness
+def mk_case(kind, chan, L, tau, tclose, items, instr="metrics"):
+    line = "exec kind=%s chan=%s L=%d tau=%d tclose=%d instr=%s ; %s ; S" % (kind, chan, L, tau, tclose, instr, " ".join("it:%d:%d" % (d, int(f)) for d, f in items))
     its = "[%s]" % "; ".join("{| dur := %d; fails := %s |}" % (d, "true" if f else "false") for d, f in items)
-    coq = ("exec_trace %d %d %s %d" % (L, tau, its, tclose)) if kind in ("ff", "fn") else ("exec_trace_sync %s" % its)
-    return Case(line, coq, dict(profile="exec", kind=kind, chan=chan, L=L, tau=tau, tclose=tclose, items=items))
+    met = "false" if instr == "none" else "true"
+    coq = ("exec_trace %d %d %d %s %s %d" % (L, tau, ERRDELAY if kind == "ff" else 0, met, its, tclose)) if kind in ("ff", "fn") else ("exec_trace_sync %s %s" % (met, its))
+    return Case(line, coq, dict(profile="exec", kind=kind, chan=chan, L=L, tau=tau, tclose=tclose, items=items, instr=instr))
 
 def parse_case_line(line):
     secs = [s.strip() for s in line.split(";")]
     params = dict(kv.split("=") for kv in secs[0].split()[1:])
     if secs[0].startswith("status"): return mk_status(params["sched"], int(params["n"]))
     items = [(int(t.split(":")[1]), t.split(":")[2] == "1") for t in secs[1].split()]
-    return mk_case(params["kind"], params["chan"], int(params["L"]), int(params["tau"]), int(params["tclose"]), items)
+    return mk_case(params["kind"], params["chan"], int(params["L"]), int(params["tau"]), int(params["tclose"]), items, params.get("instr", "metrics"))
 
 def gen_case(rng, maxL=4):
     kind = rng.choice(["ff", "ff", "ff", "fn", "nf", "nn"])
@@ -27,7 +29,7 @@ def gen_case(rng, maxL=4):
         tclose = rng.choice([0, 0, 5, 15, 25, 45, 105, 305])
     else:
         tau = 0; items = [(0, kind == "nf" and rng.random() < 0.3) for _ in range(n)]; tclose = rng.choice([0, 5])
-    return mk_case(kind, chan, L, tau, tclose, items)
+    return mk_case(kind, chan, L, tau, tclose, items, rng.choice(["metrics", "metrics", "expensive", "counters", "none"]))
 
 SCHEDS = {"never": "[SStart; SFinish]", "before": "[SSched; SStart; SFinish]", "during": "[SStart; SSched; SFinish]", "endlog": "[SStart; SFinish; SSched]"}
 def mk_status(sched, n):
@@ -46,6 +48,12 @@ def oracle_c11(case, recs):
     r = fields(recs); n = len(m["items"])
     if 70 not in r: return [(None, "no result")]
     ok, failed = r[70]; timed, errcb = r[71]; maxf, _ = r[72]; _, total = r[74]
+    if m.get("instr") == "none":
+        if ok + failed + timed != 0: hits.append((None, "metrics are disabled but the counters read %d / %d / %d" % (ok, failed, timed)))
+        exp_failed = sum(1 for d, f in m["items"] if f and not (m["tau"] > 0 and d > m["tau"])) if m["kind"] in ("ff", "nf") else 0
+        if errcb != exp_failed: hits.append((None, "the error callback ran %d times for %d failed items" % (errcb, exp_failed)))
+        if total != n: hits.append((None, "only %d of %d items were processed" % (total, n)))
+        return hits
     if ok + failed + timed != n: hits.append((None, "outcome counters %d ok + %d failed + %d timed out do not add up to the %d items" % (ok, failed, timed, n)))
     if errcb != failed: hits.append((None, "the error callback ran %d times for %d failed items" % (errcb, failed)))
     if total != n: hits.append((None, "only %d of %d items were processed (a failed / timed-out item stopped the rest?)" % (total, n)))
@@ -76,6 +84,9 @@ def oracle_c12(case, recs):
         if 74 not in r: return [(None, "no result")]
         cbs, total = r[74]; status, _ = r[75]
         if cbs != 1: hits.append((None, "the close callback ran %d times" % cbs))
+        if 78 in r:
+            fin, started = r[78]; exp_failed = sum(1 for d, f in m["items"] if f and not (m["tau"] > 0 and d > m["tau"])) if m["kind"] in ("ff", "nf") else 0
+            if fin != exp_failed: hits.append((None, "the close callback ran when %d of the %d failed items' error callbacks had completed (%d started): not after the last item was fully processed" % (fin, exp_failed, started)))
         if status not in (3, 4): hits.append((None, "the close callback found the executor in status %d (not an ended one)" % status))
         if status == 3: hits.append((None, "the close callback found 'programmatically ended' although the executor was never scheduled to finish"))
         return hits
